@@ -91,7 +91,8 @@ class C04(PropBase):
         v = gen.gen_scalar_value(rng, k, cfg)
         r = rng.random()
         if k in TEMPORAL:
-            op = core.weighted(rng, [(5, "s_parse"), (4, "s_emit"), (3, "s_num2temp"), (2 if k != "time" else 0, "s_temp2num"), (2, "s_temp2text")])
+            op = core.weighted(rng, [(5, "s_parse"), (4, "s_emit"), (3, "s_num2temp"), (2 if k != "time" else 0, "s_temp2num"), (2, "s_temp2text"),
+                                     (2 if k == "time" else 0, "s_time_inverse")])
         else:
             op = "s_parse" if r < 0.65 else "s_emit"
         step = {"op": op, "k": k, "v": v}
@@ -217,6 +218,15 @@ class C04(PropBase):
             out = sess.guarded(sess.call, step, typelib.unmarshal, {"str": str, "bytes": bytes}[step["target"]], v)
             sess._c04 = ("temp2text", v, None)
             return out
+        if op == "s_time_inverse":
+            # a time of day has no epoch second of its own (the library places it on the current day,
+            # read from the clock): what is pinned is that the numeric reading is the inverse of
+            # number -> time, on whichever day the clock says it is
+            v = sess.V(step["v"])
+            num = sess.guarded(sess.call, step, typelib.unmarshal, float, v)
+            back = sess.guarded(sess.call, step, typelib.unmarshal, datetime.time, num.value) if num.ok else None
+            sess._c04 = ("time_inverse", v, (num, back))
+            return Outcome(True, "inverse" if (back is not None and back.ok) else "raised")
         return None
 
     def comparable(self, sess, i, step):
@@ -303,6 +313,30 @@ class C04(PropBase):
                 sess.violation("temp2num", i, {"v": _s(model.canon(v)), "exc": f"{type(out.exc).__name__}: {out.exc}"[:200]}, sig=f"temp2num-raised:{k}:{step['target']}")
             elif type(out.value) is not type(want) or out.value != want:
                 sess.violation("temp2num", i, {"v": _s(model.canon(v)), "got": repr(out.value), "want": repr(want)}, sig=f"temp2num-mismatch:{k}:{step['target']}")
+            return
+        if op == "s_time_inverse":
+            num, back = sess._c04[2]
+            if not num.ok or back is None or not back.ok:
+                bad = num if not num.ok else back
+                sess.violation("temp2num", i, {"v": _s(model.canon(v)), "exc": f"{type(bad.exc).__name__}: {bad.exc}"[:200]}, sig="time-inverse-raised")
+                return
+
+            def day_us(t):
+                off = t.utcoffset()
+                us = ((t.hour * 60 + t.minute) * 60 + t.second) * 10**6 + t.microsecond - int(off.total_seconds() * 10**6)
+                return us % (86400 * 10**6)
+
+            import math
+
+            tol = max(1, int(math.ulp(num.value) * 10**6) + 1)
+            if back.value.utcoffset() is None:
+                sess.violation("temp2num", i, {"v": _s(model.canon(v)), "back": repr(back.value)}, sig="time-inverse-naive")
+                return
+            d = abs(day_us(back.value) - day_us(v))
+            d = min(d, 86400 * 10**6 - d)
+            if d > tol:
+                sess.violation("temp2num", i, {"v": _s(model.canon(v)), "number": repr(num.value), "back": _s(model.canon(back.value)), "off_by_us": d},
+                               sig="time-inverse-mismatch")
             return
         if op == "s_temp2text":
             if k == "td":
